@@ -23,6 +23,23 @@ func ios(v intstr.IntOrString) J {
 	return J{"s": v.StrVal}
 }
 
+// iosOut is ios for implementation outputs: the text of a non-percent string is erased
+// (the model only knows "some other string").
+func iosOut(v intstr.IntOrString) J {
+	j := ios(v)
+	if _, ok := j["s"]; ok {
+		return J{"s": "?"}
+	}
+	return j
+}
+
+func iosOutPtr(v *intstr.IntOrString) interface{} {
+	if v == nil {
+		return nil
+	}
+	return iosOut(*v)
+}
+
 func iosPtr(v *intstr.IntOrString) interface{} {
 	if v == nil {
 		return nil
@@ -61,7 +78,8 @@ func fromIOS(m map[string]interface{}) intstr.IntOrString {
 func guard(f func() interface{}) (res interface{}) {
 	defer func() {
 		if r := recover(); r != nil {
-			res = J{"panic": fmt.Sprint(r)}
+			_ = r
+			res = J{"panic": "?"}
 		}
 	}()
 	return f()
